@@ -13,6 +13,7 @@ def fnv1a (s : String) : Nat :=
 def goTypeName (t : Nat) : String :=
   if t == 40 then "json.RawMessage"       -- the event type that is a pre-encoded document
   else if t == 41 then "*main.T41"        -- the event type published as a pointer
+  else if t ≥ 42 then "main.U0" ++ toString (t - 40)   -- U02..U05: chosen so that all 32 shards are hit
   else "main.T" ++ (if t < 10 then "0" else "") ++ toString t
 
 def numShards : Nat := 32
@@ -78,7 +79,7 @@ structure Parsed where
   cfg : Config := {}
   faults : List Bool := []
   bodies : Array (List Action) := #[]
-  main : Array Action := #[]
+  main : Array (Action ⊕ Bool) := #[]     -- an action, or `SetPanicHandler` (some handler / nil) between actions
   bad : Array String := #[]
 
 def splitOnSemi (ws : List String) : List (List String) :=
@@ -104,9 +105,11 @@ def parseCase (lines : Array String) : Parsed := Id.run do
       let mut bs := p.bodies
       while bs.size ≤ i do bs := bs.push []
       p := { p with bodies := bs.set! i acts }
+    | ["subnil", _, _] => pure ()     -- Subscribe with a nil option: refused, nothing changes (the harness checks the refusal)
+    | ["setpanich", b] => p := { p with main := p.main.push (.inr (bool! b)) }
     | ws =>
       match parseAction ws with
-      | some a => p := { p with main := p.main.push a }
+      | some a => p := { p with main := p.main.push (.inl a) }
       | none => p := { p with bad := p.bad.push l }
   return p
 
@@ -133,7 +136,12 @@ def otelLine (tr : List Ev) : String :=
 def runCase (lines : Array String) : Array String :=
   let p := parseCase lines
   let cfg := { p.cfg with bodies := p.bodies.toList }
-  let s := run (shardedImpl shardOf) cfg 1000000 p.faults p.main.toList
+  -- `run`, with the configuration setter `SetPanicHandler` allowed between top-level actions
+  let I := shardedImpl shardOf
+  let (s, _) := p.main.toList.foldl (fun (sc : St _ × Config) item =>
+    match item with
+    | .inl a => (exec I sc.2 1000000 {} sc.1 a, sc.2)
+    | .inr b => (sc.1, { sc.2 with panicH := b })) (initSt I p.faults, cfg)
   let isObs : Ev → Bool := fun e => match e with | .obs .. => true | _ => false
   let shown := if p.otel then s.c.trace.filter (fun e => !isObs e) else s.c.trace
   let out := (shown.map showEv).toArray
